@@ -147,78 +147,91 @@ Theorem plus_interval_is_add_components : forall k W f y mo wk rd h mi rs us tot
 Proof. exact plus_interval_components_l. Qed.
 Print Assumptions plus_interval_is_add_components.
 
-(* dt + (-d) = dt.subtract(components of d): always *)
+(* dt + (-d) = dt.subtract(components of d): always (`-d` is built first, Duration.__neg__; its construction may itself raise) *)
 Theorem sub_components_eq_plus_neg : forall k W f d, wall_in_range W = true -> Z.abs (d_seconds d) < 86400 ->
   dt_plus_neg k W f d = bind (dur_neg d) (fun _ => dt_sub_components k W f d).
 Proof. exact sub_components_eq_plus_neg_l. Qed.
 Print Assumptions sub_components_eq_plus_neg.
 
-(* `dt - d = dt + (-d)` is FALSE of the code (finding sub-duration-elapsed) *)
-Theorem sub_duration_eq_add_neg_refuted :
-  exists z W f d r1 r2, wf2_zone z = true /\ wall_in_range W = true /\
-    dt_sub_timedelta (Aware z false) W f (OpDur d) = Ok r1 /\
-    dt_plus_neg (Aware z false) W f d = Ok r2 /\ dt_sub_components (Aware z false) W f d = Ok r2 /\
-    fst r1 <> fst r2.
-Proof. exact sub_duration_eq_add_neg_refuted_l. Qed.
-Print Assumptions sub_duration_eq_add_neg_refuted.
+(* what `-d` is: Duration.__neg__ builds a NEW Duration from (years, months, weeks, remaining_days, _seconds, _microseconds) negated;
+   these keyword values are its _signature, i.e. what `dt + (-d)` hands to add() *)
+Theorem neg_duration_signature : forall d nd, dur_neg d = Ok nd ->
+  d_sig nd = [- d_years d; - d_months d; - d_weeks d; - d_rdays d; 0; 0; - d_seconds d; - d_micro d + 0 * 1000].
+Proof. exact dur_neg_sig. Qed.
+Print Assumptions neg_duration_signature.
 
-(* ... and for an Interval years/months are counted twice (finding sub-interval-double-count) *)
-Theorem sub_interval_double_count_refuted :
+(* for EVERY Duration d (any constructor arguments), zone kind and wall value:
+   dt - d = dt.subtract(components of d) = dt + (-d)
+   (`-d` is evaluated first and can itself raise when the negated value is not representable; once it exists the results are equal).
+   Holds since the repair of DateTime._subtract_timedelta (findings sub-duration-elapsed, sub-interval-double-count: fixed). *)
+Theorem sub_duration_eq_add_neg : forall k W f days seconds us ms minutes hours weeks years months d,
+  wall_in_range W = true -> duration_new days seconds us ms minutes hours weeks years months = Ok d ->
+  dt_sub_timedelta k W f (OpDur d) = dt_sub_components k W f d /\
+  dt_plus_neg k W f d = bind (dur_neg d) (fun _ => dt_sub_timedelta k W f (OpDur d)) /\
+  (forall nd, dur_neg d = Ok nd -> dt_sub_timedelta k W f (OpDur d) = dt_add_timedelta k W f (OpDur nd)).
+Proof. exact sub_duration_eq_add_neg_new. Qed.
+Print Assumptions sub_duration_eq_add_neg.
+
+(* the same for any record of components with |_seconds| < 86400 (not only constructor results) *)
+Theorem sub_duration_eq_add_neg_components : forall k W f d, wall_in_range W = true -> Z.abs (d_seconds d) < 86400 ->
+  dt_sub_timedelta k W f (OpDur d) = dt_sub_components k W f d /\
+  dt_plus_neg k W f d = bind (dur_neg d) (fun _ => dt_sub_timedelta k W f (OpDur d)) /\
+  (forall nd, dur_neg d = Ok nd -> dt_sub_timedelta k W f (OpDur d) = dt_add_timedelta k W f (OpDur nd)).
+Proof. exact sub_duration_eq_add_neg_l. Qed.
+Print Assumptions sub_duration_eq_add_neg_components.
+
+Theorem duration_seconds_bound : forall days seconds us ms minutes hours weeks years months d,
+  duration_new days seconds us ms minutes hours weeks years months = Ok d -> Z.abs (d_seconds d) < 86400.
+Proof. exact duration_new_seconds_bound. Qed.
+Print Assumptions duration_seconds_bound.
+
+(* an Interval operand: dt - iv = dt.subtract(components of iv) = dt + (an Interval with the negated components, which is what -iv has);
+   every component is counted once, `_total` plays no role *)
+Theorem sub_interval_eq_add_neg : forall k W f y mo wk rd h mi rs us total,
+  dt_sub_timedelta k W f (OpIv y mo wk rd h mi rs us total) = dt_subtract k W f y mo wk rd h mi rs us /\
+  dt_sub_timedelta k W f (OpIv y mo wk rd h mi rs us total) =
+  dt_add_timedelta k W f (OpIv (- y) (- mo) (- wk) (- rd) (- h) (- mi) (- rs) (- us) (fopp total)).
+Proof. exact sub_interval_eq_add_neg_l. Qed.
+Print Assumptions sub_interval_eq_add_neg.
+
+(* hence `dt - d` with any year / month / week / day component moves on the WALL clock: the C02 normalisation (default fold 1, zone kept)
+   of the calendar target of the negated amounts — not an elapsed-time shift through UTC *)
+Theorem minus_duration_wall_clock : forall z fx W f d, wall_in_range W = true -> Z.abs (d_seconds d) < 86400 ->
+  any_cal (d_years d) (d_months d) (d_weeks d) (d_rdays d) = true ->
+  dt_sub_timedelta (Aware z fx) W f (OpDur d) =
+  match cal_target true W (- d_years d) (- d_months d) (- dur_rest_us d) with
+  | Raise e => Raise e
+  | Ok W' => create z fx W' true false
+  end.
+Proof. exact minus_duration_wall_clock_l. Qed.
+Print Assumptions minus_duration_wall_clock.
+
+(* the inputs of the two repaired findings: Europe/Paris 2013-03-31T12:00 minus Duration(days=1) = 12:00 on the 30th by all three routes
+   (the offset changes in between: the elapsed-time instant differs, third conjunct); 2021-03-05T06:00Z - (that - 2020-01-01T00:00Z) = 2020-01-01T00:00Z *)
+Theorem former_witness_sub_duration :
+  exists d, duration_new 1 0 0 0 0 0 0 0 0 = Ok d /\ wf2_zone paris13 = true /\
+    wall_of 2013 3 31 12 0 0 0 - MEG * off_local paris13 (sec (wall_of 2013 3 31 12 0 0 0)) false - dur_rest_us d
+      <> wall_of 2013 3 30 12 0 0 0 - MEG * off_local paris13 (sec (wall_of 2013 3 30 12 0 0 0)) true /\
+    dt_sub_timedelta (Aware paris13 false) (wall_of 2013 3 31 12 0 0 0) false (OpDur d) = Ok (wall_of 2013 3 30 12 0 0 0, true) /\
+    dt_plus_neg (Aware paris13 false) (wall_of 2013 3 31 12 0 0 0) false d = Ok (wall_of 2013 3 30 12 0 0 0, true) /\
+    dt_sub_components (Aware paris13 false) (wall_of 2013 3 31 12 0 0 0) false d = Ok (wall_of 2013 3 30 12 0 0 0, true).
+Proof. exact sub_duration_former_witness. Qed.
+Print Assumptions former_witness_sub_duration.
+
+Theorem former_witness_sub_interval :
   let z := mkzone 0 [] in
   let W := wall_of 2021 3 5 6 0 0 0 in
-  dt_sub_timedelta (Aware z false) W false (OpIv 1 2 0 4 6 0 0 0 (sf_of_Z 37087200)) = Ok (wall_of 2018 11 2 0 0 0 0, true) /\
+  dt_sub_timedelta (Aware z false) W false (OpIv 1 2 0 4 6 0 0 0 (sf_of_Z 37087200)) = Ok (wall_of 2020 1 1 0 0 0 0, true) /\
   dt_add_timedelta (Aware z false) W false (OpIv (-1) (-2) 0 (-4) (-6) 0 0 0 (sf_of_Z (-37087200))) = Ok (wall_of 2020 1 1 0 0 0 0, true) /\
   wall_of 2021 3 5 6 0 0 0 - wall_of 2020 1 1 0 0 0 0 = 37087200 * 1000000.
-Proof. exact sub_interval_double_count_refuted_l. Qed.
-Print Assumptions sub_interval_double_count_refuted.
-
-(* the region where it holds: naive values, Durations with years or months, Durations below one day
-   (float_exact: the float seconds denote the components exactly — whole seconds, or below 2^32 s) *)
-Theorem sub_duration_eq_add_neg_partial : forall k W f d nd, wall_in_range W = true ->
-  dur_neg d = Ok nd -> float_exact d -> same_route k d ->
-  dt_sub_timedelta k W f (OpDur d) = dt_add_timedelta k W f (OpDur nd).
-Proof. exact sub_duration_eq_add_neg_partial_l. Qed.
-Print Assumptions sub_duration_eq_add_neg_partial.
-
-(* the remaining region (whole days, no years/months, aware): same wall time and instant whenever the target is an ordinary wall time
-   with the offset of the start; only the fold flag differs *)
-Theorem sub_duration_same_offset_partial : forall z W f d nd mins us,
-  wf_zone z = true -> dur_neg d = Ok nd ->
-  d_years d = 0 -> d_months d = 0 -> (d_weeks d <> 0 \/ d_rdays d <> 0) ->
-  fsec_parts (fopp (d_total d)) = Ok (mins, us) -> td_total_us 0 0 mins 0 us = - dur_rest_us d ->
-  let T := - dur_rest_us d in
-  let o := off_local z (sec W) f in
-  -999999999 <= T / us_per_day <= 999999999 ->
-  wall_in_range W = true -> wall_in_range (W - MEG * o) = true -> wall_in_range (W - MEG * o + T) = true -> wall_in_range (W + T) = true ->
-  wall_unique z (sec (W + T)) -> off_local z (sec (W + T)) true = o ->
-  dt_sub_timedelta (Aware z false) W f (OpDur d) = Ok (W + T, fold_utc z (sec (W + T) - o)) /\
-  dt_add_timedelta (Aware z false) W f (OpDur nd) = Ok (W + T, true).
-Proof. exact sub_duration_same_offset_partial_l. Qed.
-Print Assumptions sub_duration_same_offset_partial.
-
-Theorem sub_interval_partial : forall k W f wk rd h mi rs us total mins usx, wall_in_range W = true ->
-  fsec_parts (fopp total) = Ok (mins, usx) -> td_total_us 0 0 mins 0 usx = - td_total_us (rd + 7 * wk) h mi rs us ->
-  (k = Naive \/ (wk = 0 /\ rd = 0)) ->
-  dt_sub_timedelta k W f (OpIv 0 0 wk rd h mi rs us total) =
-  dt_add_timedelta k W f (OpIv 0 0 (- wk) (- rd) (- h) (- mi) (- rs) (- us) (fopp total)).
-Proof. exact sub_interval_partial_l. Qed.
-Print Assumptions sub_interval_partial.
+Proof. exact sub_interval_former_witness. Qed.
+Print Assumptions former_witness_sub_interval.
 
 (* non-vacuity *)
-Theorem nonvacuous_float_exact : exists d, duration_new 3 7261 500000 0 0 0 2 0 0 = Ok d /\ float_exact d /\
-  dur_rest_us d = (17 * 86400 + 7261) * 1000000 + 500000.
-Proof. exact float_exact_example. Qed.
-Print Assumptions nonvacuous_float_exact.
-
-Theorem nonvacuous_same_offset :
-  let z := paris13 in let W := wall_of 2013 6 15 12 0 0 0 in
-  exists d nd mins us,
-    duration_new 1 0 0 0 0 0 0 0 0 = Ok d /\ dur_neg d = Ok nd /\ d_years d = 0 /\ d_months d = 0 /\ (d_weeks d <> 0 \/ d_rdays d <> 0) /\
-    fsec_parts (fopp (d_total d)) = Ok (mins, us) /\ td_total_us 0 0 mins 0 us = - dur_rest_us d /\
-    wall_in_range (W - MEG * off_local z (sec W) false + - dur_rest_us d) = true /\
-    wall_unique z (sec (W + - dur_rest_us d)) /\ off_local z (sec (W + - dur_rest_us d)) true = off_local z (sec W) false.
-Proof. exact same_offset_hyps. Qed.
-Print Assumptions nonvacuous_same_offset.
+Theorem nonvacuous_wall_clock : exists d, duration_new 3 7261 500000 0 0 0 2 0 0 = Ok d /\ Z.abs (d_seconds d) < 86400 /\
+  any_cal (d_years d) (d_months d) (d_weeks d) (d_rdays d) = true /\ dur_rest_us d = (17 * 86400 + 7261) * 1000000 + 500000.
+Proof. exact wall_clock_hyps. Qed.
+Print Assumptions nonvacuous_wall_clock.
 
 Theorem clamp_and_dst_examples :
   dt_add Naive (wall_of 2023 1 31 10 0 0 0) false 0 1 0 0 0 0 0 0 = Ok (wall_of 2023 2 28 10 0 0 0, true) /\
